@@ -300,6 +300,34 @@ CLAIMS["C05"] = dict(
          "with 1e-12 on dyadic values, float32 geographic weights 2e-6.",
     design="3/C05")
 
+CLAIMS["C01"] = dict(
+    technique="model-based histories: Hypothesis-generated sequences of "
+              "mutators and queries (as data) + systematic enumeration of "
+              "every (mutator, query pattern) pair, fresh-twin differential "
+              "after every query",
+    text="For 11 class families (Network, InteractingNetworks, "
+         "VisibilityGraph, GeoNetwork, ClimateNetwork, "
+         "TsonisClimateNetwork, RecurrencePlot, RecurrenceNetwork, "
+         "JointRecurrenceNetwork, ResNetwork, Surrogates) histories of "
+         "public mutators (adjacency dense/sparse, edge list, node weights, "
+         "node-weight type, set/del link attribute, rewiring, threshold / "
+         "link density / non_local / winter_only, the five recurrence "
+         "setters, update_resistances, embedding, normalisation) "
+         "interleaved with queries in up to ~95 argument patterns per "
+         "family (keys, typical weights, positional vs keyword, node "
+         "lists, summary attributes) are executed; every query result (or "
+         "exception type) must equal that of a fresh object built from the "
+         "model's current inputs. A second sub-check enumerates every "
+         "(mutator, query pattern) pair of every family in a canonical "
+         "q,m,q,m',q,m,q history (~3 100 histories).",
+    note="Trusted: the public constructors as the way to build the fresh "
+         "twin; after randomised mutators the model adopts the object's "
+         "adjacency. The long-lived object is always queried before its "
+         "twin so lru_cache eviction cannot hide a stale entry. ClimateData "
+         "windows are decided by C13, update_resistances histories also by "
+         "C18, ClimateNetwork setter histories also by C09.",
+    design="3/C01")
+
 NOT_CLAIMED = {}
 
 
